@@ -490,3 +490,81 @@ fn verif_cex_decoder_production_headers() {
         report("decoder-accepts-empty-stream", &[], "-", "Ok", "Err");
     }
 }
+
+/// drains up to `want` bytes through the byte-granular consumer interface (copy out of the stable prefix, then
+/// `advance_slices(bytes)`), returns how many were drained
+fn drain_bytes(consumer: &mut owning_iovec::ConsumingIovec<'_>, want: usize, out: &mut Vec<u8>) -> usize {
+    let mut left = want;
+    for s in consumer.stable_prefix().iter() {
+        let s: &[u8] = s;
+        let k = s.len().min(left);
+        out.extend_from_slice(&s[..k]);
+        left -= k;
+        if left == 0 {
+            break;
+        }
+    }
+    let got = want - left;
+    if got > 0 || want > 0 {
+        // ask for the whole budget: the consumer must clip it to what it exposed as consumable
+        let adv = consumer.advance_slices(want);
+        if adv != got {
+            report("advance-slices-consumed-more-or-less-than-exposed", &[], &format!("budget {}", want), &format!("{}", adv), &format!("{}", got));
+        }
+    }
+    got
+}
+
+#[test]
+fn verif_cex_byte_granular_drains() {
+    // larger borrowed pieces (above the 64 / 256-byte copy thresholds of the iovec), chunk boundaries inside and at
+    // the ends of pieces, small copied pieces in between, and BYTE-granular drains of various sizes after every call
+    let mut pieces: Vec<(Vec<u8>, bool)> = Vec::new();
+    for (i, n) in [300usize, 4, 700, 65, 257, 3, 1000].iter().enumerate() {
+        let mut p: Vec<u8> = (0..*n).map(|j| ((i * 37 + j) % 199) as u8).collect();
+        if i % 2 == 0 && *n >= 2 {
+            let l = p.len();
+            p[l - 2] = 0xfe;
+            p[l - 1] = 0xfd;
+        }
+        if *n > 100 {
+            p[*n / 2] = 0xfe;
+            p[*n / 2 + 1] = 0xfd;
+        }
+        pieces.push((p, *n < 100));
+    }
+    let whole: Vec<u8> = pieces.iter().flat_map(|(p, _)| p.iter().copied()).collect();
+    let want = ref_enc(&whole, 252, 64008);
+    for drain in [0usize, 1, 100, 257, 301, usize::MAX] {
+        let mut e = Encoder::new();
+        let mut drained: Vec<u8> = Vec::new();
+        for (p, copy) in &pieces {
+            if *copy { e.encode_copy(p) } else { e.encode(p) }
+            if drain > 0 {
+                drain_bytes(&mut e.consumer(), drain, &mut drained);
+            }
+            if !want.starts_with(&drained) {
+                report("encoder-byte-drain-not-a-prefix", &p[..4.min(p.len())], &format!("drain={}", drain), &format!("len {}", drained.len()), "prefix of the final output");
+            }
+        }
+        let rest = e.finish().flatten().expect("no backpatch left");
+        drained.extend_from_slice(&rest);
+        if drained != want {
+            report("encoder-byte-drain-schedule", &[], &format!("drain={}", drain), &format!("len {}", drained.len()), &format!("len {}", want.len()));
+        }
+        // and the decoder, fed the encoded stream in 300-byte borrowed pieces with the same byte drains
+        let mut d = Decoder::new();
+        let mut dd: Vec<u8> = Vec::new();
+        for chunk in want.chunks(300) {
+            d.decode(chunk).expect("valid stream");
+            if drain > 0 {
+                drain_bytes(&mut d.consumer(), drain, &mut dd);
+            }
+        }
+        let rest = d.finish().expect("complete").flatten().expect("flat");
+        dd.extend_from_slice(&rest);
+        if dd != whole {
+            report("decoder-byte-drain-schedule", &[], &format!("drain={}", drain), &format!("len {}", dd.len()), &format!("len {}", whole.len()));
+        }
+    }
+}
